@@ -59,6 +59,24 @@ CORPORA = {
 }
 
 CORPORA.update({
+    # nesting depth 2 and poisonable members against every holder: boxed[pois(1),2], retry[pois(1),2],
+    # boxed[retry[1,unit],2], boxed[unit,1], retry[unit,2,1], Poisonable<boxed[pois(1),2]>
+    "nest": dict(
+        module="MC.tla",
+        quick=dict(consts=dict(Family="seq", SeqColls={9, 12, 14, 16, 21, 23}, SeqApis=ALL_APIS,
+                               SeqRels={"drop"}, SeqKeys={"owned", "lent"}, SeqBodies={"acc"}, SeqKeyOps=set(), SeqMaxLen=1,
+                               SeqHolders={("none", 0), ("lock", 1), ("read", 1), ("lock", 17), ("lock", 6), ("read", 6),
+                                           ("lock", 3), ("read", 4), ("lock", 14)},
+                               Policies={"RP", "WP"}),
+                   parts=14, max_runs=150000),
+        thorough=dict(consts=dict(Family="seq", SeqColls={7, 9, 10, 11, 12, 14, 15, 16, 21, 23}, SeqApis=ALL_APIS,
+                                  SeqRels={"drop", "unlock"}, SeqKeys={"owned", "lent"}, SeqBodies={"acc"}, SeqKeyOps=set(),
+                                  SeqMaxLen=1,
+                                  SeqHolders={("none", 0), ("lock", 1), ("read", 1), ("lock", 17), ("lock", 6), ("read", 6),
+                                              ("lock", 3), ("read", 4), ("lock", 14), ("scoped_lock", 23), ("try_lock", 9)},
+                                  Policies={"RP", "WP"}),
+                      parts=16, max_runs=1500000),
+    ),
     # single-thread histories over the key-affecting vocabulary (+ an optional holder thread)
     "seqkey": dict(
         module="MC.tla",
@@ -200,13 +218,13 @@ CORPORA.update({
 })
 
 PROPS = {
-    "C01": dict(corpora=["conc2", "size3", "conc3"], design="DESIGN.md §5 C01"),
-    "C02": dict(corpora=["conc2", "size3"], design="DESIGN.md §5 C02"),
+    "C01": dict(corpora=["conc2", "size3", "conc3", "nest"], design="DESIGN.md §5 C01"),
+    "C02": dict(corpora=["conc2", "size3", "nest"], design="DESIGN.md §5 C02"),
     "C03": dict(corpora=["conc2", "size3", "seqapi"], design="DESIGN.md §5 C03"),
-    "C04": dict(corpora=["conc2", "size3"], design="DESIGN.md §5 C04"),
+    "C04": dict(corpora=["conc2", "size3", "nest"], design="DESIGN.md §5 C04"),
     "C05": dict(corpora=["conc2", "size3", "seqapi", "ops"], design="DESIGN.md §5 C05"),
     "C08": dict(corpora=["conc2", "size3"], design="DESIGN.md §5 C08"),
-    "C09": dict(corpora=["conc2", "size3", "conc3"], design="DESIGN.md §5 C09"),
+    "C09": dict(corpora=["conc2", "size3", "conc3", "nest"], design="DESIGN.md §5 C09"),
     "C13": dict(corpora=["conc2", "seqapi"], design="DESIGN.md §5 C13"),
     "C06": dict(corpora=["seqkey", "seqkey2"], design="DESIGN.md §5 C06"),
     "C10": dict(corpora=["panic", "poisonseq"], design="DESIGN.md §5 C10"),
